@@ -227,4 +227,42 @@ theorem lower_bound {L : Nat} (hL : 1 ≤ L) (hwf : (lattice L L).WF) {n k : Nat
   · exact reps_of hL hwf hn hv he (p := 0) (Or.inl rfl)
   · exact reps_of hL hwf hn hv he (p := 1) (Or.inr rfl)
 
+/-! ### weights of the listed logicals, reported distance -/
+
+theorem weight_listed {L : Nat} (hwf : (lattice L L).WF) {a : Op}
+    (ha : a ∈ (lattice L L).logX ++ (lattice L L).logZ) :
+    pauliWeight (opRow (lattice L L).qubits a) = a.length :=
+  pauliWeight_opRow _ hwf.qubits_nodup a (hwf.log_keys a ha) (hwf.log_supported a ha)
+
+/-- every row of `logicals_x` and of `logicals_z` has weight `4L` -/
+theorem weights_listed {L : Nat} (hL : 1 ≤ L) (hwf : (lattice L L).WF) :
+    (lattice L L).rowsX.map pauliWeight = [4 * L, 4 * L, 4 * L, 4 * L] ∧
+    (lattice L L).rowsZ.map pauliWeight = [4 * L, 4 * L, 4 * L, 4 * L] := by
+  have hw := fun a ha => weight_listed hwf (a := a) ha
+  change ∀ a, a ∈ logX L L ++ logZ L L → _ at hw
+  rw [logX_eq hL, logZ_eq hL] at hw
+  unfold Lattice.rowsX Lattice.rowsZ
+  change (List.map (opRow (lattice L L).qubits) (logX L L)).map pauliWeight = _ ∧
+    (List.map (opRow (lattice L L).qubits) (logZ L L)).map pauliWeight = _
+  rw [logX_eq hL, logZ_eq hL]
+  simp only [List.map_cons, List.map_nil]
+  rw [hw _ (by simp), hw _ (by simp), hw _ (by simp), hw _ (by simp), hw _ (by simp),
+    hw _ (by simp), hw _ (by simp), hw _ (by simp)]
+  simp only [List.length_map, length_kA, length_kB, length_kC, length_kD]
+  exact ⟨trivial, trivial⟩
+
+/-- `code.d` (minimum weight of the listed logicals) is `4L` -/
+theorem reported_distance {L : Nat} (hL : 1 ≤ L) (hwf : (lattice L L).WF) :
+    distance (lattice L L).rowsX (lattice L L).rowsZ = some (4 * L) := by
+  obtain ⟨h1, h2⟩ := weights_listed hL hwf
+  unfold distance
+  show (match listMin ((lattice L L).rowsX.map pauliWeight),
+    listMin ((lattice L L).rowsZ.map pauliWeight) with
+    | some a, some b => some (min a b)
+    | _, _ => none) = _
+  rw [h1, h2]
+  simp only [listMin, List.foldl_cons, List.foldl_nil]
+  congr 1
+  omega
+
 end Panqec.Color666ToricCode
